@@ -142,6 +142,8 @@ var c09Comms = []c09Comm{
 	{sym: "AAPL", left: false, right: true},
 	{sym: "BTC", left: true, right: true},
 	{sym: "AAPL 2", left: true, right: true, quoted: true},
+	{sym: "\U0001F600", left: true, right: true, quoted: true},
+	{sym: "x \U0001D11E", left: false, right: true, quoted: true},
 	{sym: "usd", right: true, text: true},
 	{sym: "шт", right: true, text: true},
 }
@@ -174,8 +176,33 @@ func c09MakePool(r *rand.Rand, nb bool) c09Pool {
 		p.accts = append(p.accts, c09Accounts[i])
 	}
 	perm = r.Perm(len(c09Comms))
+	nonBMP := func(s string) bool { return strings.ContainsFunc(s, func(x rune) bool { return x >= 0x10000 }) }
 	for _, i := range perm[:2+r.IntN(3)] {
+		if nonBMP(c09Comms[i].sym) && !nb {
+			continue
+		}
 		p.comms = append(p.comms, c09Comms[i])
+	}
+	if len(p.comms) == 0 {
+		p.comms = append(p.comms, c09Comms[3])
+	}
+	// every second pool holds a quoted symbol (declared and priced with its quotes: the directive
+	// sites are judged like the posting sites since fix-quoted-commodity-directive.diff)
+	if r.IntN(2) == 0 {
+		var qs []c09Comm
+		for _, c := range c09Comms {
+			if c.quoted && (nb || !nonBMP(c.sym)) {
+				qs = append(qs, c)
+			}
+		}
+		q := pick(r, qs)
+		has := false
+		for _, c := range p.comms {
+			has = has || c.sym == q.sym
+		}
+		if !has {
+			p.comms = append(p.comms, q)
+		}
 	}
 	perm = r.Perm(len(c09Payees))
 	for _, i := range perm[:2+r.IntN(2)] {
@@ -445,7 +472,7 @@ func (g *c09Pool) directive(b *jb, r *rand.Rand, o c09Opts) {
 		}
 	case x < 6:
 		c := pick(r, g.comms)
-		if (c.quoted || c.text) && !o.tricky {
+		if c.text && !o.tricky {
 			c = c09Comms[3]
 		}
 		b.w("commodity ")
@@ -468,9 +495,6 @@ func (g *c09Pool) directive(b *jb, r *rand.Rand, o c09Opts) {
 		}
 	case x < 8:
 		c1, c2 := g.nonText(r), g.nonText(r)
-		if c1.quoted && !o.tricky {
-			c1 = c09Comms[3]
-		}
 		lex := c1.sym
 		fl := 0
 		if c1.quoted {
@@ -1102,6 +1126,29 @@ func (s *c09Session) genReqs(c *Ctx, r *rand.Rand, rename bool) []c09Req {
 				ch := sp.C0 + r.IntN(sp.C1-sp.C0+1)
 				reqs = append(reqs, c09Req{f.Path, uint32(sp.Line), uint32(ch), true, c09NewName(r, sp.K)})
 				c.Count("rename.site=" + sp.Site)
+				if sp.Flags&flQuoted != 0 {
+					c.Count("rename.quoted.site=" + sp.Site)
+				}
+			}
+			// a symbol declared or priced with a quoted lexeme: rename from the directive and from
+			// a posting site of the same symbol (the two kinds of site carry the same range
+			// convention and the same new text)
+			for _, sp := range spans {
+				if sp.Flags&flQuoted == 0 || (sp.Site != "comdir" && sp.Site != "price") {
+					continue
+				}
+				ch := sp.C0 + r.IntN(sp.C1-sp.C0+1)
+				reqs = append(reqs, c09Req{f.Path, uint32(sp.Line), uint32(ch), true, c09NewName(r, sp.K)})
+				c.Count("rename.quoted.site=" + sp.Site)
+				for _, o := range spans {
+					if o.K == sp.K && o.Name == sp.Name && (o.Site == "amount" || o.Site == "cost" || o.Site == "assert" || o.Site == "priceamt") {
+						ch := o.C0 + r.IntN(o.C1-o.C0+1)
+						reqs = append(reqs, c09Req{f.Path, uint32(o.Line), uint32(ch), true, c09NewName(r, o.K)})
+						c.Count("rename.quoted.site=" + o.Site)
+						break
+					}
+				}
+				break
 			}
 			if r.IntN(4) == 0 {
 				// a random position; the new name suits whatever is there
@@ -1128,6 +1175,9 @@ func (s *c09Session) genReqs(c *Ctx, r *rand.Rand, rename bool) []c09Req {
 				}
 				reqs = append(reqs, c09Req{f.Path, uint32(sp.Line), uint32(ch), r.IntN(2) == 0, ""})
 				c.Count("refs.site=" + sp.Site)
+				if sp.Flags&flQuoted != 0 {
+					c.Count("refs.quoted.site=" + sp.Site)
+				}
 			}
 			// just outside the lexeme
 			if r.IntN(4) == 0 {
